@@ -170,7 +170,7 @@ func isConstructorOf(f *ssa.Function, mapID string) bool {
 	}
 	i := strings.LastIndex(mapID, ".")
 	owner := mapID[:i]
-	for _, b := range f.Blocks {
+	for _, b := range engine.BlocksInl(f) {
 		for _, in := range b.Instrs {
 			if a, ok := in.(*ssa.Alloc); ok && a.Heap {
 				t := a.Type().String()
@@ -324,7 +324,7 @@ func r18_2(r *Report, p *Program) {
 			// the stop channel closed is the one Run received
 			cs := callsTo(cl, false, "builtin.close")[0]
 			var runCh ssa.Value
-			for _, b := range f.Blocks {
+			for _, b := range engine.BlocksInl(f) {
 				for _, in := range b.Instrs {
 					if g, isGo := in.(*ssa.Go); isGo && len(g.Common().Args) > 0 {
 						runCh = g.Common().Args[len(g.Common().Args)-1]
@@ -348,7 +348,7 @@ func r18_2(r *Report, p *Program) {
 	if cf := fn(r, p, rule, "dynamic/informer.ResourceInformer.Close"); cf != nil {
 		okX := false
 		n := 0
-		for _, b := range cf.Blocks {
+		for _, b := range engine.BlocksInl(cf) {
 			for _, in := range b.Instrs {
 				if c, isC := in.(*ssa.Call); isC {
 					n++
@@ -363,7 +363,7 @@ func r18_2(r *Report, p *Program) {
 func r18_4(r *Report, p *Program) {
 	const rule = "R18.4"
 	r.Rule(rule, "handler isolation and replay")
-	r.Floor(rule, 7)
+	r.Floor(rule, 9)
 	if f := fn(r, p, rule, "dynamic/informer.sharedEventHandler.removeHandlers"); f != nil {
 		dels := callsTo(f, false, "builtin.delete")
 		ok, why := len(dels) == 1 && E(dels[0].Common().Args[0]) == "p0.handlers" && E(dels[0].Common().Args[1]) == "p1", "must delete exactly handlers[iw]"
@@ -375,11 +375,87 @@ func r18_4(r *Report, p *Program) {
 		if ok && len(engine.LoopOver(f, func(x string) bool { return x == "p0.handlers" })) > 0 {
 			ok, why = false, "iterates over all subscribers' handlers"
 		}
+		// the timers are stopped BEFORE the entry is deleted (the loop ranges over the entry)
+		if ok {
+			di := dels[0].Instr.(ssa.Instruction)
+			hdr := loops[0].Header
+			if w := bypass(f, di, func(in ssa.Instruction) bool { return in.Block() == loops[0].Exit || in.Block() == hdr }); w != nil {
+				ok, why = false, "the entry is deleted before its handlers' timers are stopped: the loop then ranges over nothing, the timer goroutines keep calling the removed handlers"
+			}
+		}
 		r.Check(rule, FK(f), p.Pos(f.Pos()), ok, "stops and deletes only the caller's handlers", why)
+	}
+	// RemoveEventHandlers always reaches removeHandlers (no remembered 'nothing registered' shortcut)
+	if f := fn(r, p, rule, "dynamic/informer.informerWrapper.RemoveEventHandlers"); f != nil {
+		rm := callsTo(f, false, "sharedEventHandler.removeHandlers")
+		ok, why := len(rm) == 1, "RemoveEventHandlers does not call removeHandlers"
+		if ok {
+			ri := rm[0].Instr.(ssa.Instruction)
+			for _, b := range engine.BlocksInl(f) {
+				for _, in := range b.Instrs {
+					if rt, isR := in.(*ssa.Return); isR && !isErrReturn(rt) {
+						if w := bypass(f, rt, func(x ssa.Instruction) bool { return x == ri }); w != nil {
+							ok, why = false, "RemoveEventHandlers can return successfully without calling removeHandlers ("+pathWhy(w)+"): handlers registered through another add path stay subscribed and their timers keep running"
+						}
+					}
+				}
+			}
+			if E(rm[0].Arg(0)) != "p0" {
+				ok, why = false, "removeHandlers is not given this wrapper"
+			}
+		}
+		r.Check(rule, FK(f)+"[always-removes]", p.Pos(f.Pos()), ok, "every successful return has removed this wrapper's handlers", why)
+	}
+	// removeHandlers waits (under the write lock) for the timer goroutines to exit: those must never
+	// take the fan-out lock themselves, in any mode — a reader queued behind the pending writer never gets in
+	if st := p.Func("dynamic/informer.eventHandler.start"); st != nil {
+		ok, why := true, ""
+		n := 0
+		for _, cl := range engine.Closures(st) {
+			// statically reachable code only: the handler callbacks it invokes through the embedded
+			// interface are the subscriber's, never the fan-out object itself
+			reach := map[*ssa.Function]bool{}
+			var dfs func(g *ssa.Function)
+			dfs = func(g *ssa.Function) {
+				if g == nil || reach[g] || !strings.HasPrefix(FK(g), engine.ModPrefix) {
+					return
+				}
+				reach[g] = true
+				for _, b := range g.Blocks {
+					for _, in := range b.Instrs {
+						if c, isC := in.(ssa.CallInstruction); isC {
+							dfs(engine.StaticFn(c.Common()))
+						}
+					}
+				}
+			}
+			dfs(cl)
+			for g := range reach {
+				if !strings.HasPrefix(FK(g), engine.ModPrefix) {
+					continue
+				}
+				for _, b := range engine.BlocksInl(g) {
+					for _, in := range b.Instrs {
+						c, isC := in.(ssa.CallInstruction)
+						if !isC {
+							continue
+						}
+						n++
+						if m, op := engine.MutexOp(c.Common()); (op == "lock" || op == "rlock") && strings.Contains(m, "sharedEventHandler") || (op == "lock" || op == "rlock") && strings.HasSuffix(m, ".mutex") && strings.Contains(FK(g), "dynamic/informer.") {
+							ok, why = false, "the resync timer goroutine acquires "+m+" ("+op+") at "+p.InstrPos(in)+": removeHandlers holds that lock exclusively while it waits for this goroutine to exit, so a tick that lands behind the pending writer blocks for ever — RemoveEventHandlers never returns and every other subscriber stops receiving events"
+						}
+					}
+				}
+			}
+		}
+		if n == 0 {
+			ok, why = false, "timer goroutine not found"
+		}
+		r.Check(rule, FK(st)+"[timer-takes-no-fanout-lock]", p.Pos(st.Pos()), ok, "the goroutine that removeHandlers waits for never locks the fan-out mutex", why)
 	}
 	if f := fn(r, p, rule, "dynamic/informer.eventHandler.stop"); f != nil {
 		var cl, wt ssa.Instruction
-		for _, b := range f.Blocks {
+		for _, b := range engine.BlocksInl(f) {
 			for _, in := range b.Instrs {
 				if c, ok := in.(*ssa.Call); ok && engine.CallKey(c.Common()) == "builtin.close" && E(c.Common().Args[0]) == "p0.stopCh" {
 					cl = in
@@ -398,7 +474,7 @@ func r18_4(r *Report, p *Program) {
 	if f := fn(r, p, rule, "dynamic/informer.eventHandler.start"); f != nil {
 		ok := false
 		for _, cl := range f.AnonFuncs {
-			for _, b := range cl.Blocks {
+			for _, b := range engine.BlocksInl(cl) {
 				for _, in := range b.Instrs {
 					if d, isD := in.(*ssa.Defer); isD && engine.CallKey(d.Common()) == "builtin.close" && strings.HasSuffix(E(d.Common().Args[0]), ".doneCh") {
 						ok = true
@@ -410,7 +486,7 @@ func r18_4(r *Report, p *Program) {
 	}
 	if f := fn(r, p, rule, "dynamic/informer.sharedEventHandler.addHandler"); f != nil {
 		var reg ssa.Instruction
-		for _, b := range f.Blocks {
+		for _, b := range engine.BlocksInl(f) {
 			for _, in := range b.Instrs {
 				if mu, ok := in.(*ssa.MapUpdate); ok && E(mu.Map) == "p0.handlers" && E(mu.Key) == "p1" {
 					reg = in
@@ -477,7 +553,7 @@ func r18_4(r *Report, p *Program) {
 	}
 	if f := fn(r, p, rule, "dynamic/informer.newResourceInformer"); f != nil {
 		n := 0
-		for _, b := range f.Blocks {
+		for _, b := range engine.BlocksInl(f) {
 			for _, in := range b.Instrs {
 				if a, ok := in.(*ssa.Alloc); ok && a.Heap && strings.HasSuffix(a.Type().String(), "informer.informerWrapper") {
 					n++
@@ -536,7 +612,7 @@ func informerAcquireRelease(r *Report, p *Program, rule string) {
 			// error exits after a successful acquisition
 			succ := successEdgeOf(a.Instr)
 			var from []engine.Point
-			for _, b := range f.Blocks {
+			for _, b := range engine.BlocksInl(f) {
 				for j := range b.Succs {
 					if l, ok := engine.EdgeLit(b, j); ok && succ(l) {
 						from = append(from, engine.Point{B: b.Succs[j]})
@@ -545,7 +621,7 @@ func informerAcquireRelease(r *Report, p *Program, rule string) {
 			}
 			// defers that close the container / the informer
 			var closers []ssa.Instruction
-			for _, b := range f.Blocks {
+			for _, b := range engine.BlocksInl(f) {
 				for _, in := range b.Instrs {
 					d, ok := in.(*ssa.Defer)
 					if !ok {
@@ -645,7 +721,7 @@ func informerAcquireRelease(r *Report, p *Program, rule string) {
 			continue
 		}
 		okD := false
-		for _, b := range f.Blocks {
+		for _, b := range engine.BlocksInl(f) {
 			for _, in := range b.Instrs {
 				if d, ok := in.(*ssa.Defer); ok {
 					if dc := engine.StaticFn(d.Common()); dc != nil && len(callsTo(dc, false, "informer.ResourceInformer.Close")) > 0 {
@@ -672,7 +748,7 @@ func informerAcquireRelease(r *Report, p *Program, rule string) {
 									return false
 								}
 								idx := engine.ErrorResultIndex(f)
-								for _, b2 := range f.Blocks {
+								for _, b2 := range engine.BlocksInl(f) {
 									for _, in2 := range b2.Instrs {
 										if rt, isR := in2.(*ssa.Return); isR && b2.Comment != "recover" {
 											rl, isL := rt.Results[idx].(*ssa.UnOp)
@@ -711,7 +787,7 @@ func alwaysNilError(f *ssa.Function) bool {
 	if idx < 0 || len(f.Blocks) == 0 {
 		return false
 	}
-	for _, b := range f.Blocks {
+	for _, b := range engine.BlocksInl(f) {
 		for _, in := range b.Instrs {
 			if rt, ok := in.(*ssa.Return); ok && !isNilConst(engine.RetVal(rt, idx)) {
 				return false
@@ -740,7 +816,7 @@ func longLived(p *Program, mapID string, conc map[*ssa.Function]bool) bool {
 		if conc[f] || !called[f] {
 			continue // goroutine-side allocation, or dead code
 		}
-		for _, b := range f.Blocks {
+		for _, b := range engine.BlocksInl(f) {
 			for _, in := range b.Instrs {
 				if a, ok := in.(*ssa.Alloc); ok {
 					t := strings.TrimPrefix(a.Type().String(), "*")
@@ -820,7 +896,7 @@ func checkThenAct(r *Report, p *Program, rule string) {
 				ord[k]++
 				// is some release of a mutex held at the read on a path read → … → write?
 				released := ""
-				for _, blk := range f.Blocks {
+				for _, blk := range engine.BlocksInl(f) {
 					for _, in := range blk.Instrs {
 						call, isCall := in.(*ssa.Call)
 						if !isCall {
@@ -864,7 +940,7 @@ func createsLiveResource(p *Program, v ssa.Value) bool {
 		}
 		for _, g := range p.CalleesOf(c) {
 			for h := range p.CG().ReachSet(g) {
-				for _, b := range h.Blocks {
+				for _, b := range engine.BlocksInl(h) {
 					for _, in := range b.Instrs {
 						if _, isGo := in.(*ssa.Go); isGo {
 							live = true
